@@ -90,11 +90,29 @@ class C03(Suite):
     check_errors = False
 
     def cases(self, tier, rng):
+        # every element type, scalar and array, created by the simulator's own command-line handling
+        for ty in lg.ALL_TYPES:
+            tags = [{"name": "S", "type": ty, "len": 1, "addr": None}, {"name": "V", "type": ty, "len": 3, "addr": None}]
+            reqs = []
+            for name, ln in (("S", 1), ("V", 3)):
+                reqs.append({"op": "rt", "path": [["s", name]], "n": ln})
+                for _ in range(4):
+                    reqs.append({"op": "wt", "path": [["s", name]], "ty": lc.TYPES[ty], "n": ln,
+                                 "vals": [lg.rand_val(rng, ty) for _ in range(ln)]})
+                    reqs.append({"op": "rt", "path": [["s", name]], "n": ln})
+            yield {"budget": 488, "tags": tags, "reqs": reqs, "via_main": True}
         n = 250 if tier == "quick" else 5000
         for k in range(n):
             tags = lg.rand_tags(rng, big=(tier == "thorough"))
-            yield {"budget": rng.choice([488, 488, 488, 100, 24, 1000]), "tags": tags,
-                   "reqs": rand_history(rng, tags, rng.randint(1, 40))}
+            c = {"budget": rng.choice([488, 488, 488, 100, 24, 1000]), "tags": tags,
+                 "reqs": rand_history(rng, tags, rng.randint(1, 40))}
+            if k % 10 == 0:
+                # every 10th device is created by the simulator's own command-line tag handling (main.py)
+                c["via_main"] = True
+                for t in tags:
+                    if rng.random() < 0.5:
+                        t["len"] = 1      # scalars matter there (main.py picks the initial value's Python type)
+            yield c
 
     def model_line(self, c):
         return lc.model_line(c)
@@ -106,7 +124,7 @@ class C03(Suite):
         return lg.oracle_history(c, out, check_errors=self.check_errors)
 
     def known_key(self, c):
-        return json.dumps({k: c[k] for k in ("budget", "tags", "reqs")}, sort_keys=True)
+        return json.dumps({k: c.get(k) for k in ("budget", "tags", "reqs", "via_main")}, sort_keys=True)
 
     def nontrivial(self, c, out):
         wrote = set()
@@ -127,7 +145,7 @@ class C03(Suite):
     def shrink(self, c):
         rs = c["reqs"]
         for i in range(len(rs)):
-            yield {"budget": c["budget"], "tags": c["tags"], "reqs": rs[:i] + rs[i + 1:]}
+            yield dict(c, reqs=rs[:i] + rs[i + 1:])
         for i, r in enumerate(rs):
             if r["op"] == "mu":
                 for j in range(len(r["reqs"])):
